@@ -82,22 +82,25 @@ def run(ctx):
         ctx.broken.append("harness TestVerifC01 did not complete (exit %d, %d/%d lines)" % (rc, len(impl), len(ops)))
         return c.finish(ctx)
     model = c.run_driver(ctx, "model", ops)
+    # the judge decides with the statement's own rule (KM.CertGen.specDecide: no regenerated clause table;
+    # c01_judge_is_model proves it equal to the table-driven model on the current tree)
+    verdict = c.run_driver(ctx, "judge", ops)
     hist = collections.Counter()
     dis = []
     issued = set()
-    for o, a, b in zip(ops, impl, model):
+    for o, a, b, j in zip(ops, impl, model, verdict):
         f = a.split()
         hist[" ".join(f[:2]) if f[0] == "refused" else f[0]] += 1
         if f[0] == "issued":
             issued.add(o)
         # judge: the property's predicate on what the real handler did
-        if f[0] == "issued" and not b.startswith("issued"):
+        if f[0] == "issued" and not j.startswith("issued"):
             c.add_violation(ctx, "issued:" + " ".join(o.split()[1:]),
-                            "real certGenHandler issued a certificate (%s) where the proved decision refuses (%s)" % (a, b),
-                            {"op": o, "impl": a, "model": b})
-        elif f[0] == "issued" and a != b:
-            c.add_violation(ctx, "principal:" + " ".join(o.split()[1:]), "issued for another principal: impl %s model %s" % (a, b),
-                            {"op": o, "impl": a, "model": b})
+                            "real certGenHandler issued a certificate (%s) where the proved decision refuses (%s)" % (a, j),
+                            {"op": o, "impl": a, "model": b, "judge": j})
+        elif f[0] == "issued" and a != j:
+            c.add_violation(ctx, "principal:" + " ".join(o.split()[1:]), "issued for another principal: impl %s judge %s" % (a, j),
+                            {"op": o, "impl": a, "model": b, "judge": j})
         elif f[0] in ("noresponse", "refused-but-signed", "panic") or (f[0] == "refused" and int(f[1]) < 400):
             c.add_violation(ctx, "no-error:" + " ".join(o.split()[1:]),
                             "request that is not served did not receive an error status: %s" % a,
